@@ -408,6 +408,35 @@ def r5_loggers(report, repo):
                  '%s builds an HtfTestLogger and sets its parent by hand' % q,
                  '%s does not create a detached HtfTestLogger with an explicit '
                  'parent' % q)
+    # the logger handed out is the one built by this very call (not a memoised
+    # / shared object that outlives the run)
+    gq = lib.cfg(f)
+    for rn in [x for x in gq.nodes if isinstance(x.ast, ast.Return)]:
+      vals = lib.value_exprs(gq, rn, rn.ast.value)
+      fresh = all(isinstance(v, ast.Call) and last_attr(v) == 'HtfTestLogger'
+                  for v in vals)
+      report.check(fresh, rule, f.qualname, 'fresh-logger', rn.ast,
+                   '%s returns the logger it constructed' % q,
+                   '%s can return a logger that was not built by this call '
+                   '(%s): a logger shared between runs carries the first run\'s '
+                   'uid and parent, so a later run\'s messages are filtered out '
+                   'or land in the other record' % (q, sorted(set(
+                       norm(v)[:40] for v in vals))))
+  for cq, c in sorted(m.classes.items()):
+    for st in c.body:
+      val = st.value if isinstance(st, (ast.Assign, ast.AnnAssign)) else None
+      mutable = isinstance(val, (ast.Dict, ast.List, ast.Set, ast.DictComp,
+                                 ast.ListComp, ast.SetComp)) or (
+                                     isinstance(val, ast.Call) and
+                                     (call_name(val) or '').split('.')[-1] in (
+                                         'dict', 'list', 'set', 'defaultdict',
+                                         'OrderedDict', 'deque',
+                                         'WeakValueDictionary'))
+      report.check(not mutable, rule, cq, 'class-level-container:' + norm(
+          st)[:40], st, 'no class-level mutable container in %s' % cq,
+                   'class %s keeps the mutable container `%s` at class level: '
+                   'it is shared by every run\'s loggers/handlers in the '
+                   'process' % (cq, norm(st)[:60]))
   g = repo.func(LG, 'get_record_logger_for')
   mk = core.calls_in(g.node, attr='HtfTestLogger')
   if mk:
